@@ -30,6 +30,7 @@ def encoder_alphabet(F, S, rep=None):
     enc = F.funcs.get(LZ + "encode")
     if enc is None:
         return None
+    _note_outputs(F)
     fam = [k for k in G.reachable([enc.key]) if k.startswith(LZ) and F.funcs[k].kind == "assocfn"]
     classes = {}   # name -> set
     sites = []
@@ -66,8 +67,31 @@ def encoder_alphabet(F, S, rep=None):
     return sites
 
 
+OUTS = {"encoded", "text"}      # output-buffer parameters of the emitters; encode's own buffer local is added per run
+
+
+def _note_outputs(F):
+    """the encoder's output buffer is whichever named Vec<u8> local of LZDiff::encode is handed to the emitters"""
+    enc = F.funcs.get(LZ + "encode")
+    if enc is None:
+        return
+    for k, f in F.funcs.items():
+        if k.startswith(LZ) and f.kind == "assocfn":
+            for l, n in f.arg_names().items():
+                if f.locals[l]["ty"].replace(" ", "") == "&mutalloc::vec::Vec<u8>":
+                    OUTS.add(n)
+    ex = Exprs(enc)
+    for bi, t in enc.calls():
+        if not t.get("indirect") and t["callee"].startswith(LZ) and t["args"]:
+            for a in t["args"][1:]:
+                if a["k"] in ("copy", "move") and enc.locals[a["pl"]["l"]]["ty"].replace(" ", "") == "&mutalloc::vec::Vec<u8>":
+                    e = ex.operand(a)
+                    if isinstance(e, tuple) and e[0] == "var":
+                        OUTS.add(e[1])
+
+
 def _is_output(e):
-    return isinstance(e, tuple) and ((e[0] in ("param", "var") and e[1] in ("encoded", "text")) or
+    return isinstance(e, tuple) and ((e[0] in ("param", "var") and e[1] in OUTS) or
                                      (e[0] == "index" and _is_output(e[1])))
 
 
@@ -262,12 +286,13 @@ def alpha_rules(F, rep, pid):
     rep.stat("decoder_literal_class", sorted(litclass))
     # N-run starter: the constant compared with encoded[i] in the else-if of decode
     exd = Exprs(dec)
+    dec_in = next((n for l, n in dec.arg_names().items() if dec.locals[l]["ty"].replace(" ", "") == "&[u8]"), "encoded")
     starters = set()
     for bi, b in enumerate(dec.blocks):
         t = b["term"]
         if t["k"] == "switch":
             e = exd.operand(t["discr"])
-            if isinstance(e, tuple) and e[0] == "bin" and e[1] == "Eq" and any(_indexed(o) == ("param", "encoded") for o in (e[2], e[3])):
+            if isinstance(e, tuple) and e[0] == "bin" and e[1] == "Eq" and any(_indexed(o) == ("param", dec_in) for o in (e[2], e[3])):
                 for o in (e[2], e[3]):
                     if o[0] == "const":
                         starters.add(o[1])
